@@ -321,6 +321,10 @@ func genC01(g *G) {
 		// points: on cell boundaries ± ulps, face seams, cube corners
 		p := g.boundaryPoint(c)
 		g.emit("cidpt", fx(p.X), fx(p.Y), fx(p.Z))
+		// points whose u or v sits exactly at the float threshold where uvToST/stToIJ switches leaf cells
+		for _, q := range g.marginPoints() {
+			g.emit("cidpt", fx(q.X), fx(q.Y), fx(q.Z))
+		}
 	}
 }
 
@@ -332,6 +336,120 @@ func minI(a, b int) int {
 }
 
 // boundaryPoint produces a point on / next to the boundary of c (or a seam / corner).
+// c01Key maps a float to an integer that is monotone in the float order (so that floats can be bisected).
+func c01Key(f float64) int64 {
+	b := int64(math.Float64bits(f))
+	if b < 0 {
+		return math.MinInt64 - b
+	}
+	return b
+}
+
+func c01Unkey(k int64) float64 {
+	if k < 0 {
+		return math.Float64frombits(uint64(math.MinInt64 - k))
+	}
+	return math.Float64frombits(uint64(k))
+}
+
+// c01Threshold returns the smallest float u with stToIJ(uvToST(u)) >= i (1 <= i <= MaxSize-1), found by bisection
+// over the float order with the library's OWN conversion functions (hooks), i.e. the exact place where
+// CellIDFromPoint switches from leaf column i-1 to leaf column i.  The uv bound of column i starts at
+// stToUV(i/2^30); the property "the leaf cell contains the point" is decided by how far below that value the
+// threshold lies (Cell.ContainsPoint allows a margin).
+func c01Threshold(i int) float64 {
+	at := func(k int64) bool { return s2.VerifStToIJ(s2.VerifUVToST(c01Unkey(k))) >= i }
+	ub := s2.VerifStToUV(s2.VerifIJToSTMin(i))
+	lo, hi := c01Key(ub), c01Key(ub)
+	for st := int64(1 << 20); at(lo); st *= 2 {
+		lo -= st
+	}
+	for st := int64(1 << 20); !at(hi); st *= 2 {
+		hi += st
+	}
+	for hi-lo > 1 {
+		m := lo + (hi-lo)/2
+		if at(m) {
+			hi = m
+		} else {
+			lo = m
+		}
+	}
+	return c01Unkey(hi)
+}
+
+// marginPoints: points (unit length and not — CellIDFromPoint does not require normalisation) whose u and / or v
+// coordinate on some face is the first / last float of a leaf column or row, or within two floats of it.
+func (g *G) marginPoints() []s2.Point {
+	r := g.rng
+	pick := func() int {
+		switch r.Intn(5) {
+		case 0:
+			return 1 + r.Intn(s2.MaxSize-1)
+		case 1: // lower half of the face (u < 0): both conversions subtract from 1
+			return 1 + r.Intn(s2.MaxSize/2)
+		case 2:
+			return s2.MaxSize - 1 - r.Intn(1<<uint(1+r.Intn(29)))
+		case 3:
+			return 1 + r.Intn(1<<uint(1+r.Intn(29)))
+		default: // multiples of a coarse cell size: boundaries of ancestors too
+			lv := r.Intn(30)
+			k := 1 + r.Intn(1<<uint(lv+1)-1)
+			return k << uint(29-lv)
+		}
+	}
+	near := func(i int) float64 {
+		u := c01Threshold(i)
+		for k := r.Intn(5) - 2; k != 0; {
+			if k > 0 {
+				u = math.Nextafter(u, 2)
+				k--
+			} else {
+				u = math.Nextafter(u, -2)
+				k++
+			}
+		}
+		return u
+	}
+	var out []s2.Point
+	f := r.Intn(6)
+	var u, v float64
+	switch r.Intn(3) {
+	case 0:
+		u, v = near(pick()), r.Float()*2-1
+	case 1:
+		u, v = r.Float()*2-1, near(pick())
+	default:
+		u, v = near(pick()), near(pick())
+	}
+	raw := s2.VerifFaceUVToXYZ(f, u, v)
+	out = append(out, s2.Point{Vector: raw})
+	// unit-length variants: normalise, then look in the ±2-ulp neighbourhood of the two small coordinates for
+	// points whose recomputed (u,v) are again the threshold floats
+	n := raw.Normalize()
+	out = append(out, s2.Point{Vector: n})
+	for t := 0; t < 6; t++ {
+		q := n
+		nd := func(x float64) float64 {
+			for k := r.Intn(5) - 2; k != 0; {
+				if k > 0 {
+					x = math.Nextafter(x, 2)
+					k--
+				} else {
+					x = math.Nextafter(x, -2)
+					k++
+				}
+			}
+			return x
+		}
+		q.X, q.Y, q.Z = nd(q.X), nd(q.Y), nd(q.Z)
+		if _, uu, vv := s2.VerifXYZToFaceUV(q); uu == u || vv == v {
+			out = append(out, s2.Point{Vector: q})
+		}
+	}
+	return out
+}
+
 func (g *G) boundaryPoint(c s2.CellID) s2.Point {
 	r := g.rng
 	cell := s2.CellFromCellID(c)
